@@ -55,6 +55,8 @@ type Conn struct {
 	Silent      bool
 	SilentLimit int
 	SilentStep  int
+	// SlowClose: Close is a park point of its own (per-run option)
+	SlowClose bool
 }
 
 // WirePkt is a complete client packet on the wire.
@@ -182,6 +184,17 @@ func (c *Conn) Close() error {
 	if c.closedLocal {
 		return c.errClosed("close")
 	}
+	if !c.s.dead && c.SlowClose {
+		c.s.parkAt(verifsim.Goid(), pkClose, "conn.Close", nil)
+		if c.closedLocal {
+			return c.errClosed("close")
+		}
+	}
+	if !c.s.dead && c.Broken == 0 && !c.Silent && c.ConnackStep != 0 {
+		// reach: the client gives up a connection that works (an error of
+		// its own making, such as a storage error in a packet handler)
+		c.w.Probe("healthy_connection_closed_by_client")
+	}
 	c.closedLocal = true
 	c.ClosedLive = !c.s.dead
 	c.CloseStep = c.w.Steps
@@ -308,17 +321,18 @@ func (c *Conn) Break(kind int) {
 
 // NetOpts are per-run transport parameters.
 type NetOpts struct {
-	Pipe        bool
-	ShortRead   int // permille: deliver fewer bytes than available
-	ReadExpiry  int // permille: let a read deadline pass although data may follow
-	ShortWrite  int // permille: accept a prefix, then time out (needs a deadline)
+	Pipe       bool
+	ShortRead  int // permille: deliver fewer bytes than available
+	ReadExpiry int // permille: let a read deadline pass although data may follow
+	ShortWrite int // permille: accept a prefix, then time out (needs a deadline)
 	// ShortWriteProgress: short writes always accept at least one byte, so
 	// that the writer has to continue and the connection stays usable
 	ShortWriteProgress bool
-	WriteBreak  int // permille: accept a prefix, then fail hard
-	DialFail    int // permille
-	DialHang    int // permille (needs a deadline on the context)
-	OneByteRead int // permille: among short reads, deliver a single byte
+	WriteBreak         int  // permille: accept a prefix, then fail hard
+	SlowClose          bool // Close is a scheduling point of its own, released late
+	DialFail           int  // permille
+	DialHang           int  // permille (needs a deadline on the context)
+	OneByteRead        int  // permille: among short reads, deliver a single byte
 	// ExpiryNeedsProgress restricts injected read expiries to those that saw
 	// at least one byte since the deadline was set (C06: no error expected)
 	ExpiryNeedsProgress bool
@@ -525,6 +539,9 @@ func (s *Sim) dialAction(p *park) Action {
 func (s *Sim) NewConn(pipe bool) *Conn {
 	w := s.W
 	c := &Conn{s: s, w: w, id: len(w.AllConns), pipe: pipe, Gen: w.Gen, OpenStep: w.Steps}
+	if o, ok := w.X.(netOptser); ok {
+		c.SlowClose = o.Net().SlowClose
+	}
 	w.AllConns = append(w.AllConns, c)
 	s.conns = append(s.conns, c)
 	if h, ok := w.X.(interface{ OnConn(*Conn) }); ok {
